@@ -128,13 +128,26 @@ def classifier():
     cls = type(rp["name"] or "X", (base,), {})
     e = cls.__new__(cls)
     e.args = ()
+    def decode(v):
+        if isinstance(v, dict) and v.get("__huge_int__"):
+            return -(10 ** 5000) if v.get("negative") else 10 ** 5000
+        if isinstance(v, dict) and v.get("__container_holding_huge_int__"):
+            return [10 ** 5000]
+        return v
+
     for k, v in rp["attrs"].items():
-        setattr(e, k, v)
-    f = {"default": default_classifier, "strict": strict_classifier, "http": http_classifier}[rp["which"]]
+        setattr(e, k, decode(v))
+    from redress.extras.pyodbc import pyodbc_classifier
+    from redress.extras.sqlstate import sqlstate_classifier
+    f = {"default": default_classifier, "strict": strict_classifier, "http": http_classifier, "sqlstate": sqlstate_classifier,
+         "pyodbc": pyodbc_classifier}[rp["which"]]
     try:
         got = f(e)
     except BaseException as ex:  # noqa
-        return done(True, observed="raises " + type(ex).__name__, input=rp)
+        return done(True, observed="raises " + type(ex).__name__ + ": " + str(ex)[:80], input=rp)
+    if rp["which"] in ("sqlstate", "pyodbc"):
+        # only totality is replayed for these two (their table is decided by the contract, not by this oracle)
+        return done(False, observed=got.name, input=rp)
     # oracle: the documented table (markers > numeric > names)
     def table():
         if isinstance(e, TimeoutError):
